@@ -356,6 +356,15 @@ def exec_prefix(sc, last_tape_values, workdir, ref_front):
     return cl, rr, t
 
 
+REPLICA_CFG = {"W": 4, "order_mode": "fifo", "exec_shuffle": False, "cache_mode": "cold",
+               "clock_jumpy": False, "uuid_seed": 0, "p_nonzero": 0.0, "tape_seed": 0}
+
+
+def replica_run(sc, workdir):
+    body, variant = _body_for(sc)
+    return run_mapper(sc["params"], dict(REPLICA_CFG), _mk_tape(None), body, workdir)
+
+
 def reference_run(sc, workdir):
     body, variant = _body_for(sc)
     tape = _mk_tape(None)
@@ -406,8 +415,20 @@ def run_seed(seed, ctx):
     res["xdigest"] = {"front": canon.sha(first)}
     res["replay_base"] = {"scenario": {"params": sc["params"], "mode": sc["mode"],
                                        "aux_seed": sc["aux_seed"], "runs": []}}
-    if ctx.get("role", 0) == 1:  # replica under another PYTHONHASHSEED: reference digest only
-        res["events_sha"] = canon.sha(first)
+    if ctx.get("role", 0) == 1:
+        # Replica under another PYTHONHASHSEED.  Its digest comes from a *parallel* run (W=4, FIFO,
+        # null tape, cold caches) rather than from the W=1 reference: the driver compares it with
+        # the primary's W=1 reference digest, which by C20 must be equal, and a hash-seed dependence
+        # that only exists on the multi-worker code path is reached as well.
+        rep = replica_run(sc, workdir)
+        common.purge_scratch()
+        res["evals"] += 1
+        if rep.error is not None:
+            res["xdigest"] = {"front": "replica_error:" + type(rep.error).__name__ + ":" + str(rep.error)[:80]}
+        else:
+            rf = rep.front[0] if isinstance(rep.front, list) else rep.front
+            res["xdigest"] = {"front": canon.sha(rf)}
+        res["events_sha"] = res["xdigest"]["front"]
         return res
     shas = [canon.sha(first)]
     for j, cfg in enumerate(sc["runs"]):
@@ -488,7 +509,9 @@ def replay(rp, ctx):
     workdir = common.scratch_root()
     sc = rp["scenario"]
     if rp.get("kind") == "hashseed":
-        ref = reference_run(sc, workdir)
+        # first interpreter: W=1 reference; second interpreter (other hash seed): the W=4 replica run
+        role = int(os.environ.get("VERIF_REPLAY_ROLE", "0"))
+        ref = reference_run(sc, workdir) if role == 0 else replica_run(sc, workdir)
         from sim import canon
         if ref.error is not None:
             return {"violations": [], "xdigest": {"front": "ref_error:" + type(ref.error).__name__}}
